@@ -588,7 +588,12 @@ def short(s: str) -> str:
 
 
 def _get_short_name_with_model(name: str) -> str:
-    _, _, model_name, _, param_name = name.split(".")
+    parts = name.split(".")
+    if len(parts) != 5:
+        # Not a model argument (e.g. 'detector.environment.temperature'): keep the full key
+        return name
+
+    _, _, model_name, _, param_name = parts
 
     return f"{model_name}.{param_name}"
 
